@@ -288,6 +288,7 @@ func (fr *frame) execInstr(in ssa.Instruction, st *State) {
 		m := fr.val(x.Map)
 		mt := under(x.Map.Type()).(*types.Map)
 		fr.safety(st, "nil-map-write", operandName(x.Map), Not(Eq(m, Nil)), x.Pos())
+		fr.hashable(st, fr.val(x.Key), mt.Key(), x.Pos())
 		c.mapStore(st, m, mt, fr.val(x.Key), fr.val(x.Value))
 	case *ssa.MakeMap:
 		mt := under(x.Type()).(*types.Map)
@@ -460,6 +461,7 @@ func (fr *frame) execUnOp(x *ssa.UnOp, st *State) {
 		c.assumeValid(st, r, x.Type())
 		if r.Sort == "Iface" {
 			c.ifaceLoads = append(c.ifaceLoads, r)
+			c.assumeJSON(st, r, x.Type())
 		}
 	case token.NOT:
 		fr.setVal(x, Not(v))
@@ -826,7 +828,9 @@ func (fr *frame) execLookup(x *ssa.Lookup, st *State) {
 	c.assumeValid(st, v, mt.Elem())
 	if v.Sort == "Iface" {
 		c.ifaceLoads = append(c.ifaceLoads, v)
+		c.assumeJSON(st, v, mt.Elem())
 	}
+	fr.hashable(st, k, mt.Key(), x.Pos())
 	if x.CommaOk {
 		fr.tuples[x] = []T{v, c.name("ok", c.mapHas(st, m, mt, k))}
 	} else {
@@ -889,10 +893,38 @@ func (fr *frame) execNext(x *ssa.Next, st *State) {
 		st.pc.S, ok.S, ks, rec.x.S, c.getHeap(st, dh).S, rec.x.S, vis.S, c.getHeap(st, dh).S, rec.x.S)
 	val := c.name("next_v", c.mapGet(st, rec.x, mt, k))
 	c.assumeValid(st, val, mt.Elem())
+	if val.Sort == "Iface" {
+		c.assumeJSON(st, val, mt.Elem())
+	}
 	c.assumeValid(st, k, mt.Key())
 	// visited' = visited + {k} (only matters when ok)
 	h := c.getHeap(st, vh)
 	c.setHeap(st, vh, Ite(ok, Store(h, rec.it, Store(vis, k, True)), h))
 	_ = tup
 	fr.tuples[x] = []T{ok, k, val}
+}
+
+// assumeJSON: in decoder functions (option JSONShape) every interface{}
+// value read from memory came out of encoding/json.
+func (c *Ctx) assumeJSON(st *State, v T, t types.Type) {
+	if !c.Opt.JSONShape {
+		return
+	}
+	if it, ok := under(t).(*types.Interface); !ok || it.NumMethods() != 0 {
+		return
+	}
+	c.AssumedJSON = true
+	c.assume(st, c.jsonShape(v))
+}
+
+// hashable: a map operation with an interface-typed key panics when the
+// dynamic type of the key is not comparable.
+func (fr *frame) hashable(st *State, k T, kt types.Type, pos token.Pos) {
+	if k.Sort != "Iface" || !fr.c.Opt.Safety {
+		return
+	}
+	c := fr.c
+	c.R.UFun("hashableT", "(declare-fun hashableT (Int) Bool)")
+	c.useHashable = true
+	c.oblige(st, "unhashable-key", "map key of dynamic type", Or(IsNilIface(k), app("Bool", "hashableT", ITyp(k))), pos)
 }
